@@ -420,8 +420,7 @@ def run_indexed(fn: Callable[[int], Any], indices: Iterable[int], workers: int |
 		pending: set[Any] = set()
 
 		def submit_next() -> bool:
-			if deadline and time.time() > deadline:
-				return False
+			# (the deadline is enforced inside the worker function, which skips seeded cases once it has passed; canonical cases always run)
 			try:
 				i = next(it)
 			except StopIteration:
